@@ -8,7 +8,22 @@ import "sort"
 // is a logical consequence of its quantifier, so adding them never changes satisfiability; it only
 // spares the solvers' (seed-sensitive) quantifier instantiation the cases a loop or a postcondition
 // argument needs most often: the current loop index and its neighbours.
-func (c *Ctx) InstantiateHints(asserts []*Term, maxPerQuant int) []*Term {
+func (c *Ctx) InstantiateHints(asserts []*Term, maxPerQuant int) (extra []*Term, qfree []*Term) {
+	hasQ := map[int]bool{}
+	var hq func(t *Term) bool
+	hq = func(t *Term) bool {
+		if v, ok := hasQ[t.id]; ok {
+			return v
+		}
+		r := t.Op == "forall" || t.Op == "exists"
+		for _, a := range t.Args {
+			if hq(a) {
+				r = true
+			}
+		}
+		hasQ[t.id] = r
+		return r
+	}
 	type q struct {
 		t   *Term
 		neg bool // the quantifier is an exists under negation: forall v. not body
@@ -38,6 +53,10 @@ func (c *Ctx) InstantiateHints(asserts []*Term, maxPerQuant int) []*Term {
 	}
 	var pos, neg func(t *Term)
 	pos = func(t *Term) {
+		if !hq(t) {
+			qfree = append(qfree, t)
+			return
+		}
 		switch t.Op {
 		case "and":
 			for _, a := range t.Args {
@@ -55,6 +74,10 @@ func (c *Ctx) InstantiateHints(asserts []*Term, maxPerQuant int) []*Term {
 		}
 	}
 	neg = func(t *Term) {
+		if !hq(t) {
+			qfree = append(qfree, c.Not(t))
+			return
+		}
 		switch t.Op {
 		case "or":
 			for _, a := range t.Args {
@@ -75,7 +98,7 @@ func (c *Ctx) InstantiateHints(asserts []*Term, maxPerQuant int) []*Term {
 		pos(a)
 	}
 	if len(qs) == 0 {
-		return out
+		return out, qfree
 	}
 	// candidate index terms: ground, non-constant, of the bound variable's sort, used as a read
 	// index or as an addend of one
@@ -173,5 +196,33 @@ func (c *Ctx) InstantiateHints(asserts []*Term, maxPerQuant int) []*Term {
 			}
 		}
 	}
-	return out
+	return out, qfree
+}
+
+// HasQuant reports whether any of ts contains a quantifier other than a constant-range one (those
+// are handled by expansion).
+func HasQuant(ts ...*Term) bool {
+	seen := map[int]bool{}
+	var rec func(t *Term) bool
+	rec = func(t *Term) bool {
+		if seen[t.id] {
+			return false
+		}
+		seen[t.id] = true
+		if (t.Op == "forall" || t.Op == "exists") && t.Name != "range" {
+			return true
+		}
+		for _, a := range t.Args {
+			if rec(a) {
+				return true
+			}
+		}
+		return false
+	}
+	for _, t := range ts {
+		if rec(t) {
+			return true
+		}
+	}
+	return false
 }
